@@ -96,7 +96,7 @@ def check_rebalance(chk, f, what):
                     "the upward rebalancing walk can stop although the subtree height changed (the only early exit allowed is `oldHeight == %s->height` after "
                     "rebal): ancestors above keep stale heights/slopes and stay unbalanced" % vn)
         else:
-            adv = [s for s in q.stores(f) if f.r(s.lhs) == vn and s.rhs is not None and q.no_casts(f.r(s.rhs)) == vn + "->parent" and (f.node_pos(s.node) or (None,))[0] in lb]
+            adv = [s for s in q.stores(f) if f.r(s.lhs) == vn and s.rhs is not None and q.no_casts(f.r(s.rhs)) in [x + "->parent" for x in alias] and (f.node_pos(s.node) or (None,))[0] in lb]
             if adv:
                 chk.ok("C01.c", f, "%s: upward walk on `%s` (update, rebal, early exit only on unchanged height, move to parent)" % (what, vn), f.where(c), "loop-exit edges + dominating atoms", evals=len(lb))
             else:
@@ -220,45 +220,7 @@ def run(prog, chk):
                         chk.bad("C01.f", f, "descent-direction:" + side, f.where(s.node),
                                 "the descent moves to `%s->%s` under %s; keys greater than a node belong to its right subtree, smaller ones to its left "
                                 "(in-order iteration and find() stop agreeing)" % (node, side, [x for x in facts if "key" in x[0]]))
-    # ------------------------------------------------------------------ h: child link <-> parent back-pointer
-    chk.rule("C01.h", "PAIRF: every write of a child link (X->left / X->right / *cell) with a node Y is paired with Y->parent = X on every path "
-                      "on which Y is non-null", floor=20)
-    for cls in TREE:
-        for tn, fs in sorted(C.class_insts(prog, cls).items()):
-            for f in fs:
-                if f.short not in ("remove", "rotl", "rotr", "insert") or (f.short == "insert" and not C.placement_news(f)) or (f.short == "remove" and not C.dtor_events(f)):
-                    continue
-                sts = q.stores(f)
-                for s in sts:
-                    if s.op != "=" or s.rhs is None:
-                        continue
-                    lt = q.no_casts(f.r(s.lhs))
-                    m = re.match(r"^(\w+)->(left|right)$", lt)
-                    is_cell = lt in ("*cell", "cell")
-                    if not m and not is_cell:
-                        continue
-                    y = f.nodes[f.strip(s.rhs)]
-                    if y["k"] != "DeclRefExpr" or q.is_zero(f, s.rhs):
-                        continue
-                    Y = y["ref"]["n"]
-                    if f.short == "insert" and Y == "item":
-                        continue   # the new node gets its parent from its constructor
-                    want = [t.node for t in sts if q.no_casts(f.r(t.lhs)) == Y + "->parent" and (is_cell or q.no_casts(f.r(t.rhs)) == m.group(1))]
-                    # paths on which Y is null need no back-pointer
-                    skip = set()
-                    for b in f.blocks.values():
-                        c = b.get("cond")
-                        if c is None or len(b["succ"]) != 2 or b["succ"][1] is None:
-                            continue
-                        k = fin.key(f, c)
-                        if k == Y or (s.node in f.desc(c)):
-                            skip.add((b["succ"][1], 0))
-                    pos = f.node_pos(s.node)
-                    if want and C.paths_all_pass(f, pos, q.pos_of(f, want) | skip):
-                        chk.ok("C01.h", f, "`%s = %s` paired with %s->parent" % (lt, Y, Y), f.where(s.node), "prefix/suffix path search", evals=2)
-                    else:
-                        chk.bad("C01.h", f, "child-link-without-parent-pointer:%s=%s" % (lt.replace("->", "."), Y), f.where(s.node),
-                                "`%s = %s` makes %s a child but a path does not set %s->parent accordingly: later rotations/removals walk up through a stale parent" % (lt, Y, Y, Y))
+    C.parent_pairing(prog, chk, "C01.h", TREE)
     from .. import containers
     containers.link_idiom(prog, chk, "C01.d1", TREE)
     containers.unlink_idiom(prog, chk, "C01.d2", TREE)
